@@ -30,6 +30,11 @@ def setup(mode):
         _fx['th'] = th = tmo.settings.get_thermo()
         _fx['MW'] = [float(x) for x in th.chemicals.MW]
         isolation.track(th.chemicals._index_cache)
+        chemsB = tmo.Chemicals([IDS[2], IDS[0], IDS[3], IDS[1]], cache=True)
+        tmo.settings.set_thermo(chemsB, cache=True)
+        _fx['thB'] = tmo.settings.get_thermo()
+        isolation.track(_fx['thB'].chemicals._index_cache)
+        tmo.settings.set_thermo(th)
     if sym:
         C.patch(S.SYM_MODULES + ['thermosteam.separations', 'thermosteam.equilibrium.lle', 'thermosteam.equilibrium.binary_phase_fraction'])
         C.setg(C.mod('thermosteam.base.sparse').SparseVector, 'dtype', core.symfloat)
@@ -62,14 +67,24 @@ def outlet(E, name, dirty):
     return mk(E, name, [1] * N if dirty else [0] * N)
 
 
-def g_mix_and_split(dirty):
+def g_mix_and_split(dirty, other_package=False):
     def run(E):
         sep = C.mod('thermosteam.separations')
         n_in = 1 + E.choice(2, 'n-inlets')
         ins, tot = [], [0.0] * N
         for j in range(n_in):
             pres = [E.choice(2, f'i{j}-water?'), 1, E.choice(2, f'i{j}-octanol?') if j == 0 else 0, 0 if j == 0 else 1]
-            s, fl = mk(E, f'i{j}_', pres)
+            if other_package:
+                # inlets defined on another property package (same chemicals, another order)
+                thB = _fx['thB']
+                fl = S.sym_flows(E, f'i{j}_', N, pres)                       # in IDS order
+                s = tmo.Stream(None, thermo=thB)
+                S.inject(s.imol.data, [fl[IDS.index(c)] for c in thB.chemicals.IDs])
+                stub = c03.StubThermo(thB, E)
+                stub.mixture = _Mixture(E, N)
+                s._thermo = stub
+            else:
+                s, fl = mk(E, f'i{j}_', pres)
             ins.append(s)
             tot = [a + b for a, b in zip(tot, fl)]
         top, _ = outlet(E, 't', dirty)
@@ -85,7 +100,7 @@ def g_mix_and_split(dirty):
         ft, fb = flows(top), flows(bot)
         for i in range(N):
             E.observe(f't{i}', ft[i])
-        sig = f'inlets={n_in}/{kind}/dirty={dirty}'
+        sig = f'inlets={n_in}/{kind}/dirty={dirty}/other-package={other_package}'
         E.prove('outlets-sum-to-inlets', E.all([E.eq(a + b, c) for a, b, c in zip(ft, fb, tot)]), sig=sig)
         E.prove('top-is-split-times-mixed', E.all([E.eq(a, s_ * c) for a, s_, c in zip(ft, sv, tot)]), sig=sig)
         E.prove('no-negative-flow', E.all([E.ge(x, 0.0) for x in ft + fb]), sig=sig)
@@ -390,6 +405,7 @@ def groups(tier):
     q = tier == 'quick'
     g = {
         'mix_and_split': (g_mix_and_split(False), dict(max_paths=400000)),
+        'mix_and_split-other-package-inlets-reused-outlets': (g_mix_and_split(True, other_package=True), dict(max_paths=400000)),
         'adjust_moisture_content': (g_moisture(), dict(max_paths=400000, qtimeout_ms=20000)),
         'partition': (g_partition(False, ('none', 'both') if q else ('none', 'top:O2', 'bottom:Octanol', 'both')), dict(max_paths=400000, qtimeout_ms=20000, stubs_required=('compute_phase_fraction',))),
         'rachford-rice-shortcuts': (g_rachford_rice(), dict(max_paths=400000, qtimeout_ms=30000, task_budget_s=200)),
